@@ -226,6 +226,11 @@ def run(ctx):
     ctx.rule("R7.streaming", "the decoder of the record count recognises the specification's STREAMING alternative "
              "(numrecs = NON_NEG | STREAMING: the all-ones word) before it takes the word as a count")
     check_streaming(ctx, ctx.need_fn(ctx.program(names=["ncmpio_header_get.c"]), "ncmpio_hdr_get_NC"))
+    from rules import r8varshape
+    ctx.rule("R8.recsize", "compute_var_shape: the reader's record size is the single record variable's unpadded bytes per record, or the "
+             "sum of the record variables' padded lengths (bounded: lists of up to 3 variables)")
+    nrs = r8varshape.check_recsize(ctx, ctx.need_fn(ctx.program(names=["ncmpio_header_get.c"]), "compute_var_shape"), "R8.recsize")
+    ctx.require(nrs >= 80, "R8.recsize: only %d variable lists evaluated" % nrs)
     from rules import r4decodeorder
     ctx.rule("R4.decodeorder", "ncmpio_hdr_get_NC: no field of the header object the decoder derives is read (by it or the functions it "
              "hands the object to, depth 3) before the write that derives it")
